@@ -17,6 +17,11 @@
     * `dict_ndl(make_data_array=True)` returns `data_array(weights)` of the
       dict it learned (ndl.py:481-482)                         — `lwFromDict`.
 
+  An `ndl.ndl` part is the CALL (`ndlCall`): on a part with zero events it raises
+  `IOError` as soon as a kernel entry point is called (`ndlCall_nil_raises`), so
+  the success theorems carry "every `ndl.ndl` part has at least one event"
+  (`hne`), and `chainRun_empty_ndl_part_raises` is the error direction.
+
   Main results: `chainRun_spec` (induction over the list of parts, with the
   label invariant `StateOK`), `chain_any_length`, `chain_eq_single_call`,
   `chain_split_irrelevant`.  The 32-bit size condition is stated once, a
@@ -25,7 +30,7 @@
   from the invariant "labels of the state are duplicate free and are names
   occurring in the events of the chain".
 -/
-import PyndlProofs.NdlContinue
+import PyndlProofs.NdlCall
 import PyndlProofs.DictArray
 
 set_option linter.unusedSectionVars false
@@ -54,14 +59,22 @@ def PartLearner.policy : PartLearner → DupPolicy
   | .dict p _ => p
   | .ndl cfg => cfg.policy
 
-/-- argument checks of `ndl.ndl` that make it raise before learning:
-    `events_per_temporary_file ≥ 2`, `n_outcomes_per_job ≥ 1`; none for `dict_ndl` -/
-def PartLearner.ChunksOK : PartLearner → Prop
+/-- the chunking arguments an `ndl.ndl` part runs through with (`CfgOK`:
+    `2 ≤ events_per_temporary_file < 2³²`, `1 ≤ n_outcomes_per_job`, and for
+    OpenMP `nOut + n_outcomes_per_job < 2³²`, where `nOut` bounds the number of
+    outcome labels any state of the chain can have); none for `dict_ndl` -/
+def PartLearner.ChunksOK (nOut : Nat) : PartLearner → Prop
   | .dict _ _ => True
-  | .ndl cfg => 2 ≤ cfg.perFile ∧ 1 ≤ cfg.perJob
+  | .ndl cfg => CfgOK cfg nOut
 
-instance : DecidablePred PartLearner.ChunksOK := fun l => by
+instance (nOut : Nat) : DecidablePred (PartLearner.ChunksOK nOut) := fun l => by
   cases l <;> unfold PartLearner.ChunksOK <;> infer_instance
+
+/-- is the part run by `ndl.ndl`? (then it must have at least one event, or the
+    call raises `IOError`) -/
+def PartLearner.isNdl : PartLearner → Bool
+  | .dict _ _ => false
+  | .ndl _ => true
 
 abbrev Part := PartLearner × List (Event String String)
 
@@ -115,7 +128,7 @@ def chainStep (magic version : Nat) (alpha β₁ β₂ lam : R) (s : Option (Cha
     | none => .error .value
     | some W => .ok (if mk then .matrix (lwFromDict W) else .dict W)
   | .ndl cfg, es =>
-    match ndlModel magic version cfg alpha β₁ β₂ lam (toNdlArg s) es with
+    match ndlCall magic version cfg alpha β₁ β₂ lam (toNdlArg s) es with
     | .error e => .error e
     | .ok (w, _) => .ok (.matrix w)
 
@@ -399,38 +412,13 @@ theorem ndlModel_labels (magic version : Nat) (cfg : NdlCfg) (alpha β₁ β₂ 
     r.outcomes = (match W0 with
       | none => (countNames es).2
       | some w => w.outcomes ++ (countNames es).2.filter (fun o => !w.outcomes.contains o)) := by
-  rcases hcn : countNames es with ⟨cuesNew, outsNew⟩
-  unfold ndlModel at h
-  simp only [hcn] at h
   cases W0 with
   | none =>
-    simp only at h
-    split at h
-    · cases h
-    · split at h
-      · cases h
-      · split at h
-        · cases h
-        · split at h
-          · cases h
-          · simp only [Except.ok.injEq, Prod.mk.injEq] at h
-            obtain ⟨h, _⟩ := h
-            subst h
-            exact ⟨rfl, rfl⟩
+    rw [ndlModel_none] at h
+    exact ndlCore_labels _ _ _ _ _ _ _ _ _ _ _ _ _ h
   | some w =>
-    simp only at h
-    split at h
-    · cases h
-    · split at h
-      · cases h
-      · split at h
-        · cases h
-        · split at h
-          · cases h
-          · simp only [Except.ok.injEq, Prod.mk.injEq] at h
-            obtain ⟨h, _⟩ := h
-            subst h
-            exact ⟨rfl, rfl⟩
+    rw [ndlModel_some] at h
+    exact ndlCore_labels _ _ _ _ _ _ _ _ _ _ _ _ _ h
 
 end Labels
 
@@ -582,8 +570,10 @@ theorem rwLearn_congr_init {ι κ : Type} [DecidableEq ι] [DecidableEq κ] (α 
 theorem chainStep_spec (magic version : Nat) (hm : magic < 4294967296) (hv : version < 4294967296)
     (C O : List String) (hC : (dedupKeepFirst C).length < 4294967296)
     (hO : (dedupKeepFirst O).length < 4294967296) (alpha β₁ β₂ lam : R)
-    (s : Option (ChainState R)) (hs : StateOK C O s) (l : PartLearner) (hl : l.ChunksOK)
-    (es es' : List (Event String String)) (hp : applyPolicyAll l.policy es = some es')
+    (s : Option (ChainState R)) (hs : StateOK C O s) (l : PartLearner)
+    (hl : l.ChunksOK (dedupKeepFirst O).length)
+    (es es' : List (Event String String)) (hne : l.isNdl = true → es ≠ [])
+    (hp : applyPolicyAll l.policy es = some es')
     (hfit : PartFits C O es) :
     ∃ s', chainStep magic version alpha β₁ β₂ lam s l es = .ok s' ∧ StateOK C O (some s') ∧
       ∀ o c, s'.get o c = rwLearn (fun _ => alpha) β₁ β₂ lam (stateGet s) es' o c := by
@@ -609,7 +599,8 @@ theorem chainStep_spec (magic version : Nat) (hm : magic < 4294967296) (hv : ver
         show (lwFromDict W).get o c = _
         rw [lwFromDict_get, habs]
   | ndl cfg =>
-    obtain ⟨hper, hjob⟩ := hl
+    have hl : CfgOK cfg (dedupKeepFirst O).length := hl
+    have hne : es ≠ [] := hne rfl
     -- what `ndl.ndl` receives
     have harg : (toNdlArg s = none ∧ s = none) ∨
         ∃ w, toNdlArg s = some w ∧ MatOK C O w ∧ ∀ o c, w.get o c = stateGet s o c := by
@@ -623,21 +614,22 @@ theorem chainStep_spec (magic version : Nat) (hm : magic < 4294967296) (hv : ver
     obtain ⟨nc, no⟩ := countNames_nodup es
     rcases harg with ⟨ha, hsn⟩ | ⟨w, ha, hwok, hwget⟩
     · subst hsn
-      obtain ⟨r, hr, hrget⟩ := ndlModel_eq_spec magic version hm hv cfg hper hjob alpha β₁ β₂ lam es es' hp
-        (fits32_of_partFits C O hC hO es hfit)
+      obtain ⟨r, hr, hrget⟩ := ndlModel_eq_spec magic version hm hv cfg alpha β₁ β₂ lam es es'
+        (hl.mono (length_le_of_nodup_sub _ O no so)) hp (fits32_of_partFits C O hC hO es hfit)
       obtain ⟨lc, lo⟩ := ndlModel_labels magic version cfg alpha β₁ β₂ lam none es r es.length hr
       simp only at lc lo
       refine ⟨.matrix r, ?_, ?_, ?_⟩
-      · simp only [chainStep, ha, hr]
+      · simp only [chainStep, ha, ndlCall_nonempty _ _ _ _ _ _ _ _ _ hne, hr]
       · exact ⟨by rw [lc]; exact nc, by rw [lo]; exact no, by rw [lc]; exact sc, by rw [lo]; exact so⟩
       · intro o c
         exact hrget o c
-    · obtain ⟨r, hr, hrget⟩ := ndlModel_continue_eq_spec magic version hm hv cfg hper hjob alpha β₁ β₂ lam
-        w es es' hp (fits32With_of_ok C O hC hO w hwok es hfit)
+    · obtain ⟨r, hr, hrget⟩ := ndlModel_continue_eq_spec magic version hm hv cfg alpha β₁ β₂ lam
+        w es es' (hl.mono (length_le_of_nodup_sub _ O (merged_nodup _ _ hwok.ndO no) (merged_sub _ _ O hwok.subO so)))
+        hp (fits32With_of_ok C O hC hO w hwok es hfit)
       obtain ⟨lc, lo⟩ := ndlModel_labels magic version cfg alpha β₁ β₂ lam (some w) es r es.length hr
       simp only at lc lo
       refine ⟨.matrix r, ?_, ?_, ?_⟩
-      · simp only [chainStep, ha, hr]
+      · simp only [chainStep, ha, ndlCall_nonempty _ _ _ _ _ _ _ _ _ hne, hr]
       · exact ⟨by rw [lc]; exact merged_nodup _ _ hwok.ndC nc, by rw [lo]; exact merged_nodup _ _ hwok.ndO no,
           by rw [lc]; exact merged_sub _ _ C hwok.subC sc, by rw [lo]; exact merged_sub _ _ O hwok.subO so⟩
       · intro o c
@@ -651,7 +643,9 @@ theorem chainRun_spec (magic version : Nat) (hm : magic < 4294967296) (hv : vers
     (hO : (dedupKeepFirst O).length < 4294967296) (alpha β₁ β₂ lam : R)
     (parts : List Part) (s : Option (ChainState R)) (hs : StateOK C O s)
     (es' : List (Event String String)) (hp : chainPolicy parts = some es')
-    (hl : ∀ pt ∈ parts, pt.1.ChunksOK) (hfit : ∀ pt ∈ parts, PartFits C O pt.2) :
+    (hl : ∀ pt ∈ parts, pt.1.ChunksOK (dedupKeepFirst O).length)
+    (hne : ∀ pt ∈ parts, pt.1.isNdl = true → pt.2 ≠ [])
+    (hfit : ∀ pt ∈ parts, PartFits C O pt.2) :
     ∃ s', chainRun magic version alpha β₁ β₂ lam s parts = .ok s' ∧ StateOK C O s' ∧
       ∀ o c, stateGet s' o c = rwLearn (fun _ => alpha) β₁ β₂ lam (stateGet s) es' o c := by
   induction parts generalizing s es' with
@@ -671,8 +665,10 @@ theorem chainRun_spec (magic version : Nat) (hm : magic < 4294967296) (hv : vers
         simp only [h2, Option.some.injEq] at hp
         subst hp
         obtain ⟨s1, r1, ok1, g1⟩ := chainStep_spec magic version hm hv C O hC hO alpha β₁ β₂ lam s hs pt.1
-          (hl pt (List.mem_cons_self ..)) pt.2 e1 h1 (hfit pt (List.mem_cons_self ..))
+          (hl pt (List.mem_cons_self ..)) pt.2 e1 (hne pt (List.mem_cons_self ..)) h1
+          (hfit pt (List.mem_cons_self ..))
         obtain ⟨s2, r2, ok2, g2⟩ := ih (some s1) ok1 e2 h2 (fun q hq => hl q (List.mem_cons_of_mem _ hq))
+          (fun q hq => hne q (List.mem_cons_of_mem _ hq))
           (fun q hq => hfit q (List.mem_cons_of_mem _ hq))
         refine ⟨s2, ?_, ok2, ?_⟩
         · simp only [chainRun, r1]; exact r2
@@ -719,20 +715,24 @@ theorem partFits_of_fits32 (parts : List Part) (h : Fits32 (allEvents parts)) (p
 
 /-- **chains of any length, any learner per part**: if every part is accepted
     by the duplicate policy of its learner (`chainPolicy parts = some es'`),
-    the `ndl.ndl` parts have legal chunk sizes, and the WHOLE file fits the
-    32-bit limits (`Fits32 (allEvents parts)` — a condition on the inputs only),
-    then the chain runs through and its final state denotes the specification
-    learned from all-zero weights on the policy-processed concatenation. -/
+    the `ndl.ndl` parts have legal chunking arguments (`ChunksOK`, w.r.t. the
+    number of distinct outcome names of the whole file) and at least one event
+    each, and the WHOLE file fits the 32-bit limits (`Fits32 (allEvents parts)`
+    — a condition on the inputs only), then the chain of CALLS runs through and
+    its final state denotes the specification learned from all-zero weights on
+    the policy-processed concatenation. -/
 theorem chain_any_length (magic version : Nat) (hm : magic < 4294967296) (hv : version < 4294967296)
     (alpha β₁ β₂ lam : R) (parts : List Part) (es' : List (Event String String))
-    (hp : chainPolicy parts = some es') (hl : ∀ pt ∈ parts, pt.1.ChunksOK)
+    (hp : chainPolicy parts = some es')
+    (hl : ∀ pt ∈ parts, pt.1.ChunksOK (countNames (allEvents parts)).2.length)
+    (hne : ∀ pt ∈ parts, pt.1.isNdl = true → pt.2 ≠ [])
     (hfit : Fits32 (allEvents parts)) :
     ∃ s, chainRun magic version alpha β₁ β₂ lam none parts = .ok s ∧
       ∀ o c, stateGet s o c = rwLearn (fun _ => alpha) β₁ β₂ lam (fun _ _ => (0 : R)) es' o c := by
   obtain ⟨s, r, _, g⟩ := chainRun_spec magic version hm hv
     ((allEvents parts).flatMap (fun e : Event String String => e.cues))
     ((allEvents parts).flatMap (fun e : Event String String => e.outcomes)) hfit.nCues hfit.nOuts
-    alpha β₁ β₂ lam parts none trivial es' hp hl (partFits_of_fits32 parts hfit)
+    alpha β₁ β₂ lam parts none trivial es' hp hl hne (partFits_of_fits32 parts hfit)
   exact ⟨s, r, g⟩
 
 /-- the stepwise form: from ANY state satisfying the label invariant w.r.t. name
@@ -743,32 +743,37 @@ theorem chain_any_length_stepwise (magic version : Nat) (hm : magic < 4294967296
     (hO : (dedupKeepFirst O).length < 4294967296) (alpha β₁ β₂ lam : R)
     (parts : List Part) (s : Option (ChainState R)) (hs : StateOK C O s)
     (es' : List (Event String String)) (hp : chainPolicy parts = some es')
-    (hl : ∀ pt ∈ parts, pt.1.ChunksOK) (hfit : ∀ pt ∈ parts, PartFits C O pt.2) :
+    (hl : ∀ pt ∈ parts, pt.1.ChunksOK (dedupKeepFirst O).length)
+    (hne : ∀ pt ∈ parts, pt.1.isNdl = true → pt.2 ≠ [])
+    (hfit : ∀ pt ∈ parts, PartFits C O pt.2) :
     ∃ s', chainRun magic version alpha β₁ β₂ lam s parts = .ok s' ∧
       ∀ o c, stateGet s' o c = rwLearn (fun _ => alpha) β₁ β₂ lam (stateGet s) es' o c := by
-  obtain ⟨s', r, _, g⟩ := chainRun_spec magic version hm hv C O hC hO alpha β₁ β₂ lam parts s hs es' hp hl hfit
+  obtain ⟨s', r, _, g⟩ := chainRun_spec magic version hm hv C O hC hO alpha β₁ β₂ lam parts s hs es' hp hl hne hfit
   exact ⟨s', r, g⟩
 
 /-- **the chain equals ONE call over the whole file**, of `ndl.ndl` (any method
-    and chunk sizes) and of `dict_ndl`, when all parts and the single call run
-    with the same duplicate policy `p`. That the whole file is accepted follows
-    from the parts being accepted (`chainPolicy_uniform`). -/
+    and legal chunking arguments) and of `dict_ndl`, when all parts and the single
+    call run with the same duplicate policy `p`. That the whole file is accepted
+    follows from the parts being accepted (`chainPolicy_uniform`).  The single
+    `ndl.ndl` call is the CALL (`ndlCall`), hence `hall`: the file has an event. -/
 theorem chain_eq_single_call (magic version : Nat) (hm : magic < 4294967296) (hv : version < 4294967296)
     (alpha β₁ β₂ lam : R) (parts : List Part) (p : DupPolicy) (hpol : ∀ pt ∈ parts, pt.1.policy = p)
     (es' : List (Event String String)) (hp : chainPolicy parts = some es')
-    (hl : ∀ pt ∈ parts, pt.1.ChunksOK) (hfit : Fits32 (allEvents parts))
-    (cfg : NdlCfg) (hcp : cfg.policy = p) (hper : 2 ≤ cfg.perFile) (hjob : 1 ≤ cfg.perJob) :
+    (hl : ∀ pt ∈ parts, pt.1.ChunksOK (countNames (allEvents parts)).2.length)
+    (hne : ∀ pt ∈ parts, pt.1.isNdl = true → pt.2 ≠ [])
+    (hfit : Fits32 (allEvents parts)) (hall : allEvents parts ≠ [])
+    (cfg : NdlCfg) (hcp : cfg.policy = p) (hcfg : CfgOK cfg (countNames (allEvents parts)).2.length) :
     ∃ s w W, chainRun magic version alpha β₁ β₂ lam none parts = .ok s ∧
-      ndlModel magic version cfg alpha β₁ β₂ lam none (allEvents parts) = .ok (w, (allEvents parts).length) ∧
+      ndlCall magic version cfg alpha β₁ β₂ lam none (allEvents parts) = .ok (w, (allEvents parts).length) ∧
       dictNdl p (fun _ => alpha) β₁ β₂ lam [] (allEvents parts) = some W ∧
       ∀ o c, stateGet s o c = w.get o c ∧ stateGet s o c = wdAbs W o c := by
-  have hall : applyPolicyAll p (allEvents parts) = some es' := by
+  have hallp : applyPolicyAll p (allEvents parts) = some es' := by
     rw [← chainPolicy_uniform p parts hpol]; exact hp
-  obtain ⟨s, r, g⟩ := chain_any_length magic version hm hv alpha β₁ β₂ lam parts es' hp hl hfit
-  obtain ⟨w, rw', gw⟩ := ndlModel_eq_spec magic version hm hv cfg hper hjob alpha β₁ β₂ lam (allEvents parts) es'
-    (by rw [hcp]; exact hall) hfit
+  obtain ⟨s, r, g⟩ := chain_any_length magic version hm hv alpha β₁ β₂ lam parts es' hp hl hne hfit
+  obtain ⟨w, rw', gw⟩ := ndlCall_eq_spec magic version hm hv cfg alpha β₁ β₂ lam (allEvents parts) es' hall
+    hcfg (by rw [hcp]; exact hallp) hfit
   obtain ⟨W, rW, gW⟩ := dictNdl_eq_spec p (fun _ => alpha) β₁ β₂ lam ([] : WDict String String R)
-    (allEvents parts) es' hall
+    (allEvents parts) es' hallp
   refine ⟨s, w, W, r, rw', rW, fun o c => ⟨?_, ?_⟩⟩
   · rw [g o c, gw o c]
   · rw [g o c, gW]; rfl
@@ -779,13 +784,16 @@ theorem chain_eq_single_call (magic version : Nat) (hm : magic < 4294967296) (hv
 theorem chain_split_irrelevant_gen (magic version : Nat) (hm : magic < 4294967296) (hv : version < 4294967296)
     (alpha β₁ β₂ lam : R) (parts₁ parts₂ : List Part) (es' : List (Event String String))
     (hp₁ : chainPolicy parts₁ = some es') (hp₂ : chainPolicy parts₂ = some es')
-    (hl₁ : ∀ pt ∈ parts₁, pt.1.ChunksOK) (hl₂ : ∀ pt ∈ parts₂, pt.1.ChunksOK)
+    (hl₁ : ∀ pt ∈ parts₁, pt.1.ChunksOK (countNames (allEvents parts₁)).2.length)
+    (hl₂ : ∀ pt ∈ parts₂, pt.1.ChunksOK (countNames (allEvents parts₂)).2.length)
+    (hne₁ : ∀ pt ∈ parts₁, pt.1.isNdl = true → pt.2 ≠ [])
+    (hne₂ : ∀ pt ∈ parts₂, pt.1.isNdl = true → pt.2 ≠ [])
     (hfit₁ : Fits32 (allEvents parts₁)) (hfit₂ : Fits32 (allEvents parts₂)) :
     ∃ s₁ s₂, chainRun magic version alpha β₁ β₂ lam none parts₁ = .ok s₁ ∧
       chainRun magic version alpha β₁ β₂ lam none parts₂ = .ok s₂ ∧
       ∀ o c, (stateGet s₁ o c : R) = stateGet s₂ o c := by
-  obtain ⟨s₁, r₁, g₁⟩ := chain_any_length magic version hm hv alpha β₁ β₂ lam parts₁ es' hp₁ hl₁ hfit₁
-  obtain ⟨s₂, r₂, g₂⟩ := chain_any_length magic version hm hv alpha β₁ β₂ lam parts₂ es' hp₂ hl₂ hfit₂
+  obtain ⟨s₁, r₁, g₁⟩ := chain_any_length magic version hm hv alpha β₁ β₂ lam parts₁ es' hp₁ hl₁ hne₁ hfit₁
+  obtain ⟨s₂, r₂, g₂⟩ := chain_any_length magic version hm hv alpha β₁ β₂ lam parts₂ es' hp₂ hl₂ hne₂ hfit₂
   exact ⟨s₁, s₂, r₁, r₂, fun o c => by rw [g₁ o c, g₂ o c]⟩
 
 /-- **the split does not matter**: two splits of the SAME file (any numbers of
@@ -796,7 +804,10 @@ theorem chain_split_irrelevant (magic version : Nat) (hm : magic < 4294967296) (
     (hpol₁ : ∀ pt ∈ parts₁, pt.1.policy = p) (hpol₂ : ∀ pt ∈ parts₂, pt.1.policy = p)
     (hsame : allEvents parts₁ = allEvents parts₂)
     (es' : List (Event String String)) (hacc : applyPolicyAll p (allEvents parts₁) = some es')
-    (hl₁ : ∀ pt ∈ parts₁, pt.1.ChunksOK) (hl₂ : ∀ pt ∈ parts₂, pt.1.ChunksOK)
+    (hl₁ : ∀ pt ∈ parts₁, pt.1.ChunksOK (countNames (allEvents parts₁)).2.length)
+    (hl₂ : ∀ pt ∈ parts₂, pt.1.ChunksOK (countNames (allEvents parts₁)).2.length)
+    (hne₁ : ∀ pt ∈ parts₁, pt.1.isNdl = true → pt.2 ≠ [])
+    (hne₂ : ∀ pt ∈ parts₂, pt.1.isNdl = true → pt.2 ≠ [])
     (hfit : Fits32 (allEvents parts₁)) :
     ∃ s₁ s₂, chainRun magic version alpha β₁ β₂ lam none parts₁ = .ok s₁ ∧
       chainRun magic version alpha β₁ β₂ lam none parts₂ = .ok s₂ ∧
@@ -804,7 +815,93 @@ theorem chain_split_irrelevant (magic version : Nat) (hm : magic < 4294967296) (
   chain_split_irrelevant_gen magic version hm hv alpha β₁ β₂ lam parts₁ parts₂ es'
     (by rw [chainPolicy_uniform p parts₁ hpol₁]; exact hacc)
     (by rw [chainPolicy_uniform p parts₂ hpol₂, ← hsame]; exact hacc)
-    hl₁ hl₂ hfit (by rw [← hsame]; exact hfit)
+    hl₁ (by rw [← hsame]; exact hl₂) hne₁ hne₂ hfit (by rw [← hsame]; exact hfit)
+
+/-! ### two `ndl.ndl` calls, with the reported counts -/
+
+/-- **two chained `ndl.ndl` CALLS = the specification over the concatenation**
+    (possibly different methods and chunk sizes in the two calls, later part
+    with new cues/outcomes), under ONE a-priori size condition on the inputs:
+    `Fits32 (xs ++ ys)`.  The condition `Fits32With w₁ ys` for the intermediate
+    matrix is DERIVED (its labels are the duplicate-free names of `xs`). -/
+theorem ndlCall_chain_two (magic version : Nat) (hm : magic < 4294967296) (hv : version < 4294967296)
+    (cfg₁ cfg₂ : NdlCfg) (alpha β₁ β₂ lam : R)
+    (xs xs' ys ys' : List (Event String String)) (hxne : xs ≠ []) (hyne : ys ≠ [])
+    (hc₁ : CfgOK cfg₁ (countNames (xs ++ ys)).2.length) (hc₂ : CfgOK cfg₂ (countNames (xs ++ ys)).2.length)
+    (hx : applyPolicyAll cfg₁.policy xs = some xs') (hy : applyPolicyAll cfg₂.policy ys = some ys')
+    (fxy : Fits32 (xs ++ ys)) :
+    ∃ w₁ w₂, ndlCall magic version cfg₁ alpha β₁ β₂ lam none xs = .ok (w₁, xs.length) ∧
+      ndlCall magic version cfg₂ alpha β₁ β₂ lam (some w₁) ys = .ok (w₂, ys.length) ∧
+      ∀ o c, w₂.get o c = rwLearn (fun _ => alpha) β₁ β₂ lam (fun _ _ => (0 : R)) (xs' ++ ys') o c := by
+  set C := (xs ++ ys).flatMap (fun e : Event String String => e.cues) with hCdef
+  set O := (xs ++ ys).flatMap (fun e : Event String String => e.outcomes) with hOdef
+  have hC : (dedupKeepFirst C).length < 4294967296 := fxy.nCues
+  have hO : (dedupKeepFirst O).length < 4294967296 := fxy.nOuts
+  have hlen := fxy.nEvents
+  rw [List.length_append] at hlen
+  have fx : PartFits C O xs := ⟨by omega,
+    fun e he => ⟨fun c hc => List.mem_flatMap.mpr ⟨e, List.mem_append_left _ he, hc⟩,
+      fun o ho => List.mem_flatMap.mpr ⟨e, List.mem_append_left _ he, ho⟩⟩,
+    fun e he => fxy.perEvent e (List.mem_append_left _ he)⟩
+  have fy : PartFits C O ys := ⟨by omega,
+    fun e he => ⟨fun c hc => List.mem_flatMap.mpr ⟨e, List.mem_append_right _ he, hc⟩,
+      fun o ho => List.mem_flatMap.mpr ⟨e, List.mem_append_right _ he, ho⟩⟩,
+    fun e he => fxy.perEvent e (List.mem_append_right _ he)⟩
+  obtain ⟨scx, sox⟩ := countNames_sub C O xs fx
+  obtain ⟨ncx, nox⟩ := countNames_nodup xs
+  obtain ⟨scy, soy⟩ := countNames_sub C O ys fy
+  obtain ⟨ncy, noy⟩ := countNames_nodup ys
+  have hc₁' : CfgOK cfg₁ (dedupKeepFirst O).length := hc₁
+  have hc₂' : CfgOK cfg₂ (dedupKeepFirst O).length := hc₂
+  obtain ⟨w₁, e1, a1⟩ := ndlModel_eq_spec magic version hm hv cfg₁ alpha β₁ β₂ lam xs xs'
+    (hc₁'.mono (length_le_of_nodup_sub _ O nox sox)) hx (fits32_of_partFits C O hC hO xs fx)
+  obtain ⟨lc, lo⟩ := ndlModel_labels magic version cfg₁ alpha β₁ β₂ lam none xs w₁ xs.length e1
+  simp only at lc lo
+  have hw₁ : MatOK C O w₁ :=
+    ⟨by rw [lc]; exact ncx, by rw [lo]; exact nox, by rw [lc]; exact scx, by rw [lo]; exact sox⟩
+  obtain ⟨w₂, e2, a2⟩ := ndlModel_continue_eq_spec magic version hm hv cfg₂ alpha β₁ β₂ lam w₁ ys ys'
+    (hc₂'.mono (length_le_of_nodup_sub _ O (merged_nodup _ _ hw₁.ndO noy) (merged_sub _ _ O hw₁.subO soy)))
+    hy (fits32With_of_ok C O hC hO w₁ hw₁ ys fy)
+  refine ⟨w₁, w₂, by rw [ndlCall_nonempty _ _ _ _ _ _ _ _ _ hxne]; exact e1,
+    by rw [ndlCall_nonempty _ _ _ _ _ _ _ _ _ hyne]; exact e2, ?_⟩
+  intro o c
+  rw [a2, rwLearn_append]
+  congr 1
+  funext o c
+  exact a1 o c
+
+/-! ### the error direction: an EMPTY `ndl.ndl` part -/
+
+theorem chainRun_append (magic version : Nat) (alpha β₁ β₂ lam : R) (s : Option (ChainState R))
+    (pre post : List Part) :
+    chainRun magic version alpha β₁ β₂ lam s (pre ++ post) =
+      match chainRun magic version alpha β₁ β₂ lam s pre with
+      | .error e => .error e
+      | .ok s' => chainRun magic version alpha β₁ β₂ lam s' post := by
+  induction pre generalizing s with
+  | nil => rfl
+  | cons pt ps ih =>
+    simp only [List.cons_append, chainRun]
+    cases chainStep magic version alpha β₁ β₂ lam s pt.1 pt.2 with
+    | error e => rfl
+    | ok s' => exact ih (some s')
+
+/-- **an `ndl.ndl` part with ZERO events makes the chain raise `IOError`** — with
+    OpenMP always, with threading as soon as the state handed to it has at least
+    one outcome label (i.e. after any earlier part that saw an outcome) — wherever
+    the part stands and whatever follows.  (`dict_ndl` on an empty part is a
+    no-op; this is where the learners differ.) -/
+theorem chainRun_empty_ndl_part_raises (magic version : Nat) (alpha β₁ β₂ lam : R)
+    (s : Option (ChainState R)) (pre post : List Part) (s₁ : Option (ChainState R))
+    (hpre : chainRun magic version alpha β₁ β₂ lam s pre = .ok s₁)
+    (cfg : NdlCfg) (hper : 2 ≤ cfg.perFile) (hperU : cfg.perFile < 4294967296)
+    (hjt : cfg.method = .threading → 1 ≤ cfg.perJob)
+    (hjo : cfg.method = .openmp → cfg.perJob < 4294967296)
+    (hout : cfg.method = .openmp ∨ ∃ w, toNdlArg s₁ = some w ∧ w.outcomes ≠ []) :
+    chainRun magic version alpha β₁ β₂ lam s (pre ++ (.ndl cfg, []) :: post) = .error .io := by
+  rw [chainRun_append, hpre]
+  simp only [chainRun, chainStep,
+    ndlCall_nil_raises magic version cfg alpha β₁ β₂ lam (toNdlArg s₁) hper hperU hjt hjo hout]
 
 end Whole
 
